@@ -57,7 +57,8 @@ CHECKS = {
                 "Memory is byte-granular per object with weak updates; calls are joined context-insensitively (over-approximation). A sink whose label set contains a secret label is reported with "
                 "the def-use chain back to the source parameter. Every external function must be classified in the secret/public table or the check is BROKEN.",
         "note": "IR-level: assumes the x86 backend does not turn data operations into branches and that instruction timing is data-independent; gcc not analysed; pointer parameters assumed "
-                "non-overlapping (except c == m); a variable index is assumed to stay inside its array field (C06). Assembly backends are covered by C05's rules, not here.",
+                "non-overlapping (except c == m); a variable index is assumed to stay inside its array field (C06). The 27 assembly programs are covered by R-C07-ASM (branches only on the round "
+                "counter, addresses base + constant) using C05's symbolic machine.",
         "technique": "interprocedural taint/dependency dataflow over LLVM IR (N0 and -O3), byte-granular field-sensitive memory",
     },
     "C03": {
@@ -76,7 +77,21 @@ CHECKS = {
         "note": "That an accepted buffer holds exactly the plaintext is C01/C08. Distinct pointer parameters assumed non-overlapping except c == m.",
         "technique": "SCEV loop-coverage + bit-provenance of the stored value + affine argument equality + must-pass-through",
     },
+    "C05": {
+        "text": "Each of the 27 assembly programs (8 ISAs x 3 key sizes, Xtensa under both ABIs; preprocessed under exactly the macro set tinyjambu-backend-select.h requires) is parsed by a "
+                "per-ISA front end and followed by a symbolic machine in the bit-provenance (GF(2) term) domain with fresh symbols for the four state words, the key words and the round counter: "
+                "no loop is unrolled, every conditional branch forks, a path ends at a return or the back edge. At every exit after j rounds and at the back edge the state registers / stored words "
+                "equal, bit for bit, the bit-serial specification applied 128*j times (STEP); the counter is decremented and tested against zero after every round and the loop body realigns the key "
+                "schedule (SCHED), key/base/stack registers are loop-invariant and nothing else is live into the loop - so the per-iteration result extends to every round count >= 1. On the same "
+                "paths: stores only to the four state words or the own frame, loads inside the structure (EFFECT); stack, return address and every written callee-saved register restored (ABI, both "
+                "Xtensa ABIs). SELECT: every target macro set selects one backend macro and exactly one unit defines each entry point. WELLFORMED: 7 of 8 ISAs assemble with LLVM-14 and the "
+                "instruction counts agree with the parse. The three C backends get the same STEP/SCHED/EFFECT treatment on their N0 IR.",
+        "note": "NOT decided: the clause 'generated files are byte-identical to the generators' output' (needs running tools/gen*; no AVR generator is bundled) - declined as not static. ISA "
+                "semantics and ABI tables are trusted as transcribed in tj/asmx.py; Xtensa has no assembler here (text only). rounds == 0 is outside the property.",
+        "technique": "abstract interpretation of assembly / IR in a GF(2) bit-provenance term domain, one symbolic loop iteration + structural induction premises; effect and ABI pairing rules",
+        "category": "translation_validation",
+    },
 }
 
 _NB = "not built yet in this session (design exists in DESIGN.md; claimed only once its check fires on broken variants and is silent on the unchanged tree)"
-NOT_APPLICABLE = {p: _NB for p in ["C01", "C02", "C05", "C06", "C08", "C09", "C10", "C11", "C12", "C13", "C14", "C15", ]}
+NOT_APPLICABLE = {p: _NB for p in ["C01", "C02", "C06", "C08", "C09", "C10", "C11", "C12", "C13", "C14", "C15", ]}
